@@ -16,6 +16,13 @@ pub struct ScriptRng {
     words: Vec<u64>,
     pos: usize,
     ctr: u64,
+    /// words served before anything else (a finite run of repeated draws)
+    front: std::collections::VecDeque<u64>,
+    /// every `period` draws, stall on `pattern` for `reps` repetitions (0 = never)
+    period: usize,
+    pattern: Vec<u64>,
+    reps: usize,
+    draws: usize,
 }
 
 impl ScriptRng {
@@ -24,6 +31,24 @@ impl ScriptRng {
             words,
             pos: 0,
             ctr: 0,
+            front: Default::default(),
+            period: 0,
+            pattern: vec![],
+            reps: 0,
+            draws: 0,
+        }
+    }
+    pub fn with_periodic_stall(mut self, period: usize, pattern: Vec<u64>, reps: usize) -> ScriptRng {
+        self.period = period;
+        self.pattern = pattern;
+        self.reps = reps;
+        self
+    }
+    /// serve `pattern` `reps` times next: a stream on which a rejection loop keeps drawing the
+    /// same candidates for a long but finite time
+    pub fn stall(&mut self, pattern: &[u64], reps: usize) {
+        for _ in 0..reps {
+            self.front.extend(pattern.iter().copied());
         }
     }
 }
@@ -33,6 +58,15 @@ impl RngCore for ScriptRng {
         (self.next_u64() >> 32) as u32
     }
     fn next_u64(&mut self) -> u64 {
+        if let Some(w) = self.front.pop_front() {
+            return mix(w, 0x51ed);
+        }
+        self.draws += 1;
+        // at least 8 fresh draws between two stalls: a rejection loop must be able to get out
+        if self.period > 0 && self.draws % self.period.max(8) == 0 && !self.pattern.is_empty() {
+            let p = self.pattern.clone();
+            self.stall(&p, self.reps);
+        }
         if self.pos < self.words.len() {
             self.pos += 1;
             // spread small generated values over the whole range
@@ -243,6 +277,10 @@ pub struct HistCase {
     /// (move kind 0 leaf swap / 1 local swap / 2 subtree move, query widths afterwards?)
     pub moves: Vec<(u8, bool)>,
     pub words: Vec<u64>,
+    /// (move index, pattern, repetitions): before that move the random stream repeats the
+    /// pattern that many times
+    #[serde(default)]
+    pub stalls: Vec<(u8, Vec<u64>, u16)>,
 }
 
 fn check_hist_in<G: GraphLike>(c: &HistCase, obs: &mut Obs) -> Result<(), String> {
@@ -272,6 +310,12 @@ fn check_hist_in<G: GraphLike>(c: &HistCase, obs: &mut Obs) -> Result<(), String
             _ => "move_random_subtree",
         };
         let before: BTreeSet<(usize, usize)> = t.edges().into_iter().collect();
+        for (at, pattern, reps) in &c.stalls {
+            if *at as usize == i && !pattern.is_empty() {
+                rng.stall(pattern, *reps as usize);
+                obs.class_if(*reps >= 50, "stalled-stream>=50");
+            }
+        }
         let r = guarded(&format!("move {i} {name}"), || match kind % 3 {
             0 => t.swap_random_leaves(&mut rng),
             1 => t.random_local_swap(&mut rng),
@@ -343,12 +387,25 @@ pub struct AnnealCase {
     pub min_temp: f64,
     pub cooling: f64,
     pub adaptive: bool,
+    /// drive the annealer with the scripted RNG instead of SmallRng: (period, pattern, reps)
+    #[serde(default)]
+    pub script: Option<(u16, Vec<u64>, u16)>,
 }
 
 fn check_anneal(c: &AnnealCase, obs: &mut Obs) -> Result<(), String> {
     use rand::SeedableRng;
+    match &c.script {
+        None => check_anneal_with(c, rand::rngs::SmallRng::seed_from_u64(c.seed), obs),
+        Some((period, pattern, reps)) => {
+            obs.class("scripted-rng");
+            let rng = ScriptRng::new(vec![c.seed]).with_periodic_stall(*period as usize, pattern.clone(), *reps as usize);
+            check_anneal_with(c, rng, obs)
+        }
+    }
+}
+
+fn check_anneal_with<R: rand::Rng>(c: &AnnealCase, rng: R, obs: &mut Obs) -> Result<(), String> {
     let (g, _) = build_graph::<quizx::vec_graph::Graph>(&c.graph);
-    let rng = rand::rngs::SmallRng::seed_from_u64(c.seed);
     let mut a = guarded("RankwidthAnnealer::new", || RankwidthAnnealer::new(g.clone(), rng))?;
     a.set_iterations(c.iterations)
         .set_init_temp(c.init_temp)
@@ -433,7 +490,7 @@ pub fn def(ctx: &Ctx) -> PropertyDef {
     let max_moves = t.pick(30, 200);
     PropertyDef {
         id: "C18",
-        rule: "graphs with 2..14 (24) vertices (random, edgeless, complete; vector and hash backend with gaps in the names); random_decomp and the three moves (leaf swap, local swap, subtree move) driven by a scripted RNG over a generated word stream; histories of <=30 (200) moves. After every move: structural cubic-tree invariant (leaves <-> vertices bijectively, symmetric adjacency, no self/multi adjacency, connected, acyclic, index lists consistent), is_valid_for_graph, no panic; rankwidth()/rankwidth_score() on the live tree == the same on a clone with the cache cleared == brute-force cut ranks from the harness's own partition and F2 rank. Annealer with generated parameters and seeded SmallRng: result valid, brute-force width <= that of the initial tree and equal to the width it reports. Non-trivial = >=3 moves of >=2 kinds on a tree with >=6 nodes with two moves touching a common tree edge; annealer on >=5 vertices with >=20 iterations.",
+        rule: "graphs with 2..14 (24) vertices (random, edgeless, complete; vector and hash backend with gaps in the names); random_decomp and the three moves (leaf swap, local swap, subtree move) driven by a scripted RNG over a generated word stream, including streams that repeat a short pattern up to 400 times before a move (long finite runs of rejected draws); histories of <=30 (200) moves. After every move: structural cubic-tree invariant (leaves <-> vertices bijectively, symmetric adjacency, no self/multi adjacency, connected, acyclic, index lists consistent), is_valid_for_graph, no panic; rankwidth()/rankwidth_score() on the live tree == the same on a clone with the cache cleared == brute-force cut ranks from the harness's own partition and F2 rank. Annealer with generated parameters and a seeded SmallRng or the scripted RNG with periodic stalls: result valid, brute-force width <= that of the initial tree and equal to the width it reports. Non-trivial = >=3 moves of >=2 kinds on a tree with >=6 nodes with two moves touching a common tree edge; annealer on >=5 vertices with >=20 iterations.",
         assumptions: vec!["harness partition / F2 rank; scripted RNG implements rand::RngCore"],
         sections: vec![
             Section::random(
@@ -445,12 +502,17 @@ pub fn def(ctx: &Ctx) -> PropertyDef {
                         prop::collection::vec(any::<u64>(), 0..=40),
                         prop::collection::vec((0u8..3, prop_oneof![3 => Just(true), 1 => Just(false)]), 0..=max_moves),
                         prop::collection::vec(any::<u64>(), 0..=(max_moves * 3)),
+                        prop::collection::vec(
+                            (0u8..12, prop::collection::vec(any::<u64>(), 1..=4), prop_oneof![1 => 1u16..20, 2 => 45u16..80, 1 => 100u16..400]),
+                            0..=2,
+                        ),
                     )
-                        .prop_map(|(graph, init_words, moves, words)| HistCase {
+                        .prop_map(|(graph, init_words, moves, words, stalls)| HistCase {
                             graph,
                             init_words,
                             moves,
                             words,
+                            stalls,
                         })
                 },
                 check_hist,
@@ -467,9 +529,13 @@ pub fn def(ctx: &Ctx) -> PropertyDef {
                         prop_oneof![Just(0.01f64), 0.0001f64..1.0],
                         prop_oneof![Just(0.95f64), 0.05f64..0.999],
                         any::<bool>(),
+                        prop_oneof![
+                            2 => Just(None),
+                            1 => (8u16..200, prop::collection::vec(any::<u64>(), 1..=4), prop_oneof![1u16..20, 45u16..120]).prop_map(Some),
+                        ],
                     )
                         .prop_map(
-                            |(graph, seed, iterations, init_temp, min_temp, cooling, adaptive)| AnnealCase {
+                            |(graph, seed, iterations, init_temp, min_temp, cooling, adaptive, script)| AnnealCase {
                                 graph,
                                 seed,
                                 iterations,
@@ -477,6 +543,7 @@ pub fn def(ctx: &Ctx) -> PropertyDef {
                                 min_temp,
                                 cooling,
                                 adaptive,
+                                script,
                             },
                         )
                 },
